@@ -87,16 +87,35 @@ def frame_txt(df):
     return None if df is None else df.to_string()
 
 
+def tree_text(s, name=""):
+    """what tree() prints (rich console capture)"""
+    import rich
+    try:
+        with rich.get_console().capture() as cap:
+            s.tree(name) if name else s.tree()
+        return cap.get()
+    except Exception as e:
+        return "EXC " + type(e).__name__
+
+
+def tree_edges(text):
+    """(parent, child) pairs and the node multiset of a printed rich tree"""
+    edges, stack, names = set(), [], []
+    for ln in text.splitlines():
+        if not ln.strip(): continue
+        k = 0
+        while k < len(ln) and ln[k] in " │├└─": k += 1
+        depth, nm = k // 4, ln[k:]
+        stack = stack[:depth] + [nm]
+        names.append(nm)
+        if depth > 0: edges.add((stack[depth - 1], nm))
+    return edges, sorted(names)
+
+
 def snap_public(s, solve=True):
     """what the property names: tree(), params(limits=True), phases(), the save() document, solve()"""
     out = {}
-    buf = io.StringIO()
-    try:
-        with contextlib.redirect_stdout(buf):
-            s.tree()
-        out["tree"] = "printed"      # rich prints to its own console; the structure is compared through snap_internal edges
-    except Exception as e:
-        out["tree"] = "EXC " + type(e).__name__
+    out["tree"] = tree_text(s)
     for nm, fn in (("params", lambda: s.params(limits=True)), ("phases", lambda: s.phases())):
         try: out[nm] = frame_txt(fn())
         except Exception as e: out[nm] = "EXC " + type(e).__name__
@@ -212,6 +231,13 @@ def compare_with_rebuilt(s, m, ops, seed, props):
         fd, p = tempfile.mkstemp(suffix=".json"); os.close(fd); s.save(p)
         # the saved document describes the final structure: it reloads, and the reloaded system solves to the same table
         try:
+            doc_ = json.load(open(p))
+            for sect in ("phase_conf", "groups", "rails"):
+                ks = set(doc_.get("system", {}).get(sect, {}))
+                if ks != set(m.nodes): fail("report.save", "the %s section of the save() document and the components differ by %s (components: %s)" % (sect, sorted(ks ^ set(m.nodes))[:4], sorted(m.nodes)[:6]))
+        except Exception as e:
+            fail("report.save", "the save() document cannot be read back: %s" % type(e).__name__)
+        try:
             from sysloss.system import System
             s3 = System.from_file(p)
             oc3, df3 = _solve_outcome(s3, energy=True)
@@ -245,6 +271,11 @@ def compare_with_rebuilt(s, m, ops, seed, props):
             for kk in t1:
                 d = [(c, a, b) for c, a, b in zip(k1, t1[kk], t2[kk]) if a != b and not (isinstance(a, float) and isinstance(b, float) and oracle.close(a, b, 5e-5, 1e-9))]
                 if d: fail("edited.values", "row %s: edited %s" % (kk, d[:3])); break
+        e1, n1_ = tree_edges(tree_text(s)); e2, n2_ = tree_edges(tree_text(s2))
+        if e1 != e2 or n1_ != n2_: fail("edited.tree", "tree() of the edited system differs from the rebuilt one: %s" % sorted(e1 ^ e2)[:4]); break
+        listed = tree_edges(tree_text(s))[0]
+        shown = {c_ for _, c_ in listed}
+        if shown != set(m.nodes): fail("edited.tree", "tree() does not list exactly the components: %s" % sorted(shown ^ set(m.nodes))[:4]); break
         for nm, f1, f2 in (("params", lambda: s.params(limits=True), lambda: s2.params(limits=True)), ("phases", lambda: s.phases(), lambda: s2.phases())):
             a, b = f1(), f2()
             ka = None if a is None else sorted(map(str, a.to_dict("records")))
